@@ -488,7 +488,7 @@ pub fn run(tier: Tier) -> i32 {
     {
         let nums: &[&str] = &["0", "1", "5", "127", "128", "255", "256", "-1", "-5", "-128", "-129", "9223372036854775807", "-9223372036854775808", "18446744073709551615"];
         let sufs: &[&str] = if tier == Tier::Quick { &["", "u8", "i8"] } else { &["", "u8", "i8", "u64", "i64", "usize"] };
-        let tys: &[&str] = if tier == Tier::Quick { &["u8", "i8", "i64"] } else { &["u8", "i8", "u64", "i64", "usize", "u16"] };
+        let tys: &[&str] = if tier == Tier::Quick { &["u8", "i8", "i64", "u64"] } else { &["u8", "i8", "u64", "i64", "usize", "u16"] };
         for ty in tys {
             for a in nums {
                 for b in nums {
@@ -500,6 +500,11 @@ pub fn run(tier: Tier) -> i32 {
                             for op in ["..", "..="] {
                                 let text = format!("pub fn main(x: {ty}) -> u8 {{\n  match x {{\n    {a}{sa}{op}{b}{sb} => 1u8,\n    _ => 0u8,\n  }}\n}}\n");
                                 cases.push(Case { kind: "range-pattern", origin: String::new(), text: text.into_bytes() });
+                                // without the catch-all arm: the missing cases are reported and rendered
+                                if sa == sb {
+                                    let text = format!("pub fn main(x: {ty}) -> u8 {{\n  match x {{\n    {a}{sa}{op}{b}{sb} => 1u8,\n  }}\n}}\n");
+                                    cases.push(Case { kind: "range-pattern-non-exhaustive", origin: String::new(), text: text.into_bytes() });
+                                }
                             }
                         }
                     }
